@@ -81,6 +81,7 @@ type Frame struct {
 	countDefs map[string]bool
 	nilMapDone map[int]bool
 	sitePC    map[ssa.Instruction]*Term
+	initMode  bool // executing a package initialiser: calls to other initialisers are skipped
 }
 
 type outEdge struct {
